@@ -702,7 +702,7 @@ def check_invalid(ctx, cases):
 
     def bash_err_line(t):
         r = run_mode("bash", "stdin", t, "/tmp")
-        m = re.search(r"line (\d+): syntax error", r["err"])
+        m = re.search(r"line (\d+): syntax error(?!: unexpected end of file)", r["err"])   # end of file = incomplete, not invalid
         return (int(m.group(1)) if m else None, r["rc"], r["out"])
     bres = lib.pmap(bash_err_line, texts)
     for (key, ls, badline), t, b, m, (eline, brc, bout) in zip(cases, texts, bch, mch, bres):
@@ -843,7 +843,7 @@ def check_cache_inproc(ctx, nhist, hlen):
 EXEC_TEXTS = [
     "case ab in @(ab|cd)) echo m;; *) echo n;; esac", "[[ ABC =~ abc ]] && echo y || echo n", "[[ ABC == abc ]] && echo y || echo n",
     "x=ab; echo ${x/@(a)/z}", "echo $((1+2))", "[[ ab == +(a|b) ]] && echo y || echo n", "x=AbC; [[ $x =~ ^a.c$ ]]; echo $?",
-    "case ABC in abc) echo y;; *) echo n;; esac", "echo !(nofile) | wc -w", "x='a b'; [[ $x =~ 'A B' ]] && echo y || echo n",
+    "case ABC in abc) echo y;; *) echo n;; esac", "x=abab; echo ${x//+(ab)/z}", "x='a b'; [[ $x =~ 'A B' ]] && echo y || echo n",
 ]
 EXEC_OPTS = [(e, n, p) for e in (0, 1) for n in (0, 1) for p in (0, 1)]
 
@@ -975,7 +975,7 @@ def replay(ctx, rp):
             bad = bad or a != b or "".join(bch[0]) != t
         elif bch[0] is not None:
             r = run_mode("bash", "stdin", t, "/tmp")
-            m = re.search(r"line (\d+): syntax error", r["err"])
+            m = re.search(r"line (\d+): syntax error(?!: unexpected end of file)", r["err"])
             n, end = 0, None
             for c in bch[0]:
                 n += c.count("\n")
